@@ -237,6 +237,42 @@ def check(run):
     if not ok:
         run.violation("R5", af.where, f"append_faces: {why}: faces of later groups are offset by too few vertices and point at the wrong positions",
                       key=key_of("C07-R5", "append_faces"))
+    # ------------------------------------------------------------------ R6 grouped processing is restored to input order
+    run.rule("R6", "material.pack: per-mesh UV blocks computed group by group (meshes sharing a material) are stored by mesh index and stacked in mesh order, "
+                   "the order in which concatenate stacks the vertices")
+    pk = ix.func("trimesh.visual.material:pack")
+    stk = [st for st in ast.walk(pk.node) if isinstance(st, ast.Assign) and isinstance(st.targets[0], ast.Name) and st.targets[0].id == "stacked"]
+    if len(stk) != 1:
+        raise AnalysisError("anchor vanished: `stacked = ...` in visual.material.pack")
+    val = stk[0].value
+    ok = False
+    detail = ast.unparse(val)[:80]
+    cont = None
+    if isinstance(val, ast.Call) and ast.unparse(val.func) in ("np.vstack", "np.concatenate") and val.args and isinstance(val.args[0], (ast.ListComp, ast.GeneratorExp)):
+        comp = val.args[0]
+        g0 = comp.generators[0]
+        if isinstance(comp.elt, ast.Subscript) and isinstance(comp.elt.value, ast.Name) and isinstance(g0.target, ast.Name) \
+                and ast.unparse(comp.elt.slice) == g0.target.id and ast.unparse(g0.iter) in ("range(len(uvs))", "range(len(images_idx))"):
+            cont = comp.elt.value.id
+    if cont is not None:
+        # every store into the container inside the loops is keyed by the mesh index (the element of a material group)
+        stores = [st for st in ast.walk(pk.node) if isinstance(st, ast.Assign) and isinstance(st.targets[0], ast.Subscript)
+                  and ast.unparse(st.targets[0].value) == cont]
+        appends = [c for c in ast.walk(pk.node) if isinstance(c, ast.Call) and isinstance(c.func, ast.Attribute) and c.func.attr in ("append", "extend", "insert")
+                   and ast.unparse(c.func.value) == cont]
+        keyed = []
+        for st in stores:
+            key = ast.unparse(st.targets[0].slice)
+            # the key must be the loop variable of a `for <key> in <group>` where <group> iterates the material groups
+            loops = [lp for lp in ast.walk(pk.node) if isinstance(lp, ast.For) and isinstance(lp.target, ast.Name) and lp.target.id == key and st in list(ast.walk(lp))]
+            keyed.append(bool(loops))
+        ok = bool(stores) and all(keyed) and not appends
+        detail = f"`{cont}[<mesh index>] = ...` inside the group loop ({len(stores)} store(s), appends: {len(appends)}); stacked over range(len(uvs))"
+    run.instance("R6", pk.where, f"pack: {detail}", ok)
+    if not ok:
+        run.violation("R6", pk.where, f"material.pack stacks the re-scaled UV blocks as `{ast.unparse(val)[:70]}`: blocks are produced group by group (meshes sharing a material), so "
+                                      f"unless they are stored by mesh index and stacked in mesh order, meshes A,B,A get each other's texture coordinates",
+                      key=key_of("C07-R6", "pack-order"))
     return {
         "explanation": "Structural checks of the two re-indexing funnels (every per-element store sliced by the same mask, order relative "
         "to the cache-dumping data write), of the visuals' update methods, of the closed set of functions that assign faces/vertices "
